@@ -428,6 +428,12 @@ pub proof fn lemma_lk_miss(m0: CellMap, v: Seq<&gds21::GdsStruct>, cells: Seq<Pt
     if n > 0 { lemma_lk_miss(m0, v, cells, (n - 1) as nat, q); }
 }
 pub open spec fn strukt_ok(s: gds21::GdsStruct) -> bool { forall|k: int| 0 <= k < s.elems@.len() && (#[trigger] s.elems@[k]) is GdsBoundary ==> s.elems@[k]->GdsBoundary_0.xy@.len() < 0x7fff_ffff_ffff_ffff }
+/// model of #[derive(Default)] on the importer: empty error stack, empty cell map, empty library, nothing unsupported yet (the shared layer
+/// table — the `layers` argument of `import`, or a fresh one — is this unit's LayerTable model, R5)
+impl Default for GdsImporter {
+    #[verifier::external_body]
+    fn default() -> (r: Self) ensures r.ctx@.len() == 0, r.lib.cells@.len() == 0, r.unsupported@.len() == 0, forall|q: Seq<char>| #[trigger] r.cell_map.lookup(q) is None { unimplemented!() }
+}
 impl GdsImporter {
 //@ fn layout21raw/src/gds.rs :: impl GdsImporter :: fn import_cell
 //@   ret r
@@ -453,6 +459,25 @@ impl GdsImporter {
 //|             &&& final(self).ctx@ == old(self).ctx@ &&& cs.len() == n + 1 &&& cs.take(n) == old(self).lib.cells@ &&& cell_imp(pointee(cs[n]), *strukt, old(self).cell_map)
 //|             &&& forall|q: Seq<char>| #[trigger] final(self).cell_map.lookup(q) == (if q == strukt.name@ { Some(cs[n]) } else { old(self).cell_map.lookup(q) })
 //|         }),
+//@ end
+//@ fn layout21raw/src/gds.rs :: impl GdsImporter :: fn import
+//@   ret r
+//@   sub R5 /layers: Option<Ptr<Layers>>,/ =>
+//@   sub R5 /let layers = match layers \{\s*Some\(l\) => l,\s*None => Ptr::new\(Layers::default\(\)\),\s*\};/ =>
+//@   sub R5 /Self \{\s*layers,\s*\.\.Default::default\(\)\s*\}/ => Self { ..Default::default() }
+//@   sub R5 /mut lib,\s*layers,\s*unsupported,\s*\.\./ => mut lib, unsupported, ..
+//@   sub R5 /lib\.layers = layers;/ =>
+//@   spec
+//|     requires obeys_key_model::<i16>(), forall|k: int| 0 <= k < gdslib.structs@.len() ==> strukt_ok(#[trigger] gdslib.structs@[k]),
+//|     // the public entry: the library import_lib builds on an empty cell map, whatever was unsupported; units outside the raw model are an error
+//|     ensures r is Ok ==> exists|m0: CellMap, m1: CellMap| (forall|q: Seq<char>| #[trigger] m0.lookup(q) is None) && #[trigger] lib_imp(r->Ok_0, *gdslib, m0, m1),
+//|         units_of(gdslib.units) is None ==> r is Err,
+//@   before /importer\.import_lib\(/
+//|         let ghost vp_m0 = importer.cell_map;
+//@   after /importer\.import_lib\(/
+//|         let ghost vp_m1 = importer.cell_map;
+//@   before /^        Ok\(lib\)$/
+//|         proof { assert(forall|q: Seq<char>| #[trigger] vp_m0.lookup(q) is None); let ghost vp_r: LayoutResult<Library> = Ok(lib); assert(lib_imp(vp_r->Ok_0, *gdslib, vp_m0, vp_m1)); }
 //@ end
 //@ fn layout21raw/src/gds.rs :: impl GdsImporter :: fn import_lib
 //@   ret r
